@@ -29,6 +29,12 @@ fn validate_user_id(user_id: &str) -> AuthResult<()> {
         return Err(AuthError::InvalidUserId);
     }
 
+    // The bypass pseudo-user skips every permission check in the command handlers;
+    // a real account must never be able to carry that id.
+    if user_id == super::types::BYPASS_USER_ID {
+        return Err(AuthError::InvalidUserId);
+    }
+
     Ok(())
 }
 
